@@ -26,6 +26,7 @@ import itertools
 from verifkit import modidx, pat
 from verifkit.absrun import isinstance_names, Obj, Runner, StandIn
 from verifkit.core import Outcome
+from verifkit.known_names import is_new_helper
 from verifkit.escape import escape
 from verifkit.finite import Undecided, Raised
 
@@ -567,6 +568,9 @@ class CvE(StandIn):
         self.on_other = on_other
         self._raw, self._cleaned = segs, cleaned
 
+    def __float__(self):
+        return 12.0             # the stand-in curves all have the same signed length: it decides nothing
+
     @property
     def vertices(self):
         out, seen = [], set()
@@ -716,4 +720,52 @@ def r07_11(ctx):
     return out
 
 
-RULES = [r07_1, r07_2, r07_4, r07_5, r07_6, r07_7, r07_8, r07_9, r07_10, r07_11]
+def r07_12(ctx):
+    """S: float() of a curve or of a shape is a sum of floating-point numbers taken in the stored order of the segments
+    / curves; two descriptions of the same region give sums that differ in the last bits.  Inside `==` such values may
+    be compared within a tolerance, never for exact equality."""
+    out = Outcome("R07.12", "inside == no two computed float() values (signed lengths / areas: sums in storage order) are "
+                            "compared for exact equality", floor=5)
+
+    def is_float_call(e, defs, depth=0):
+        if isinstance(e, ast.Call) and isinstance(e.func, ast.Name) and e.func.id in ("float", "abs") and e.args \
+                and not isinstance(e.args[0], ast.Constant):
+            return e.func.id == "float" or is_float_call(e.args[0], defs, depth + 1)
+        if isinstance(e, ast.Name) and depth < 3:
+            vals = defs.get(e.id, [])
+            return bool(vals) and all(not isinstance(v, tuple) and is_float_call(v, defs, depth + 1) for v in vals)
+        return False
+    seen = 0
+    for q, fn in sorted(ctx.model.funcs.items()):
+        if fn.name not in ("__eq__", "__ne__") or fn.mod not in ("curve", "jordancurve", "shape"):
+            continue
+        seen += 1
+        # the comparison itself and the new helpers a later change cut it into
+        hosts, todo = [], [fn]
+        while todo:
+            h = todo.pop()
+            if h in hosts:
+                continue
+            hosts.append(h)
+            for t in ctx.graph.callees(h.qname):
+                g = ctx.model.funcs.get(t)
+                if g is not None and is_new_helper(g.name) and g not in hosts:
+                    todo.append(g)
+        bad = []
+        for h in hosts:
+            defs = pat.local_defs(h)
+            for n in ast.walk(h.node):
+                if isinstance(n, ast.Compare) and len(n.ops) == 1 and isinstance(n.ops[0], (ast.Eq, ast.NotEq)) \
+                        and is_float_call(n.left, defs) and is_float_call(n.comparators[0], defs):
+                    bad.append((h, n))
+        if bad:
+            h, n = bad[0]
+            out.bad(q, "two computed float() values are compared for exact equality", where=h.where(n),
+                    detail=f"`{U(n)[:70]}`: the same curve stored from another start vertex sums its lengths in another "
+                           f"order, and the sums differ in the last bit")
+        else:
+            out.ok(q, "no exact comparison of computed floats", where=fn.where())
+    return out
+
+
+RULES = [r07_1, r07_2, r07_4, r07_5, r07_6, r07_7, r07_8, r07_9, r07_10, r07_11, r07_12]
